@@ -74,7 +74,7 @@ def is_public_header_symbol(symbol):
 contract(T + '_create_const',
          params={'self': 'Transformer', 'symbol': 'SourceSymbol'},
          returns='Constant?', props=('C13',), modifies=['*.target_giname'],
-         requires=['symbol.ident is not None'],
+         requires=['symbol.ident is not None', 'not self._symbol_filter_cmd'],
          raises={'TransformerException': 'True', 'KeyError': 'True',
                  'AssertionError': "symbol.const_string is None and symbol.const_int is None and "
                                    "symbol.const_boolean is None and symbol.const_double is None"},
